@@ -429,16 +429,31 @@ pub fn judge(out: &mut Out, real: &mut Real, h: &Hist, interleaved: bool) {
     }
     if !v.fails.is_empty() {
         if h.arrivals.len() > 3 {
+            // delta debugging with a budget: drop blocks of arrivals (halves, quarters, … single arrivals)
+            // while the history still fails; long histories get at most `budget` re-runs
             let mut cur = h.clone();
-            let mut i = 0;
-            while i < cur.arrivals.len() {
-                let mut t = cur.clone();
-                t.arrivals.remove(i);
-                if evaluate(real, &t, interleaved).fails.is_empty() {
-                    i += 1;
-                } else {
-                    cur = t;
+            let mut budget = if cur.arrivals.len() > 2000 { 60usize } else { 600 };
+            let mut chunk = (cur.arrivals.len() / 2).max(1);
+            if cur.arrivals.len() <= 64 {
+                chunk = 1;
+            }
+            loop {
+                let mut i = 0;
+                while i < cur.arrivals.len() && budget > 0 {
+                    let end = (i + chunk).min(cur.arrivals.len());
+                    let mut t = cur.clone();
+                    t.arrivals.drain(i..end);
+                    budget -= 1;
+                    if !t.arrivals.is_empty() && !evaluate(real, &t, interleaved).fails.is_empty() {
+                        cur = t;
+                    } else {
+                        i = end;
+                    }
                 }
+                if chunk == 1 || budget == 0 {
+                    break;
+                }
+                chunk = (chunk / 2).max(1);
             }
             if cur.arrivals.len() < h.arrivals.len() {
                 let used: BTreeSet<usize> = cur.arrivals.iter().map(|a| a.fi).collect();
@@ -676,6 +691,32 @@ fn exhaustive(out: &mut Out, real: &mut Real, frames: &[usize], grid: &[f64], w:
 
 const WINDOWS: &[u32] = &[0, 1, 2, 50, 400, 450, 1000, 60_000, u32::MAX];
 
+fn marathon_history(rng: &mut Rng) -> Hist {
+    let nf = 3;
+    let frames: Vec<(Vec<u8>, bool)> = (0..nf).map(|i| pool_frame((i * 3 + rng.below(3) as usize) % POOL.len())).collect();
+    let w: u32 = *rng.pick(&[125u32, 400, 1000]);
+    let n = 33_000 + rng.below(4_000) as usize;
+    let unit = (w as f64 / 8.0 * 1.024).round().max(1.0) / 1024.0; // ~1/8 window per reception, exact in f64
+    let mut gaps: Vec<usize> = vec![1024, 4096, 8192, 16384, 32768];
+    for _ in 0..6 {
+        gaps.push(rng.below(n as u64) as usize);
+    }
+    let mut t = 1_700_000_000.0f64;
+    let mut id = 0u64;
+    let mut arrivals = vec![];
+    for i in 0..n {
+        // the i-th reception (1-based i+1) arrives after a silence when i+1 or i is a marked count
+        if gaps.contains(&(i + 1)) || gaps.contains(&i) {
+            t += unit * 8.0 * (9 + rng.below(6)) as f64;
+        } else {
+            t += unit * rng.below(3) as f64;
+        }
+        id += 1;
+        arrivals.push(Arr { ts: t, fi: rng.below(nf as u64) as usize, rx: vec![(rng.below(3), id)] });
+    }
+    Hist { w, frames, arrivals }
+}
+
 fn random_history(rng: &mut Rng, long: bool) -> Hist {
     let many = rng.chance(1, 4);
     let nf = 1 + rng.below(if many { POOL.len() as u64 } else { 4 }) as usize;
@@ -855,6 +896,14 @@ pub fn run(out: &mut Out, rng: &mut Rng, thorough: bool) {
     let n = if thorough { 60_000 } else { 6_000 };
     for k in 0..n {
         let h = random_history(rng, k % 3 == 0);
+        judge(out, &mut real, &h, k % 2 == 1);
+    }
+    // --- marathons: tens of thousands of receptions in one run of the loop, with silences of many windows
+    // placed before round reception counts (2^k) and at random — periodic housekeeping, counters that wrap
+    // and capacity heuristics only show on long runs
+    for k in 0..(if thorough { 6 } else { 2 }) {
+        let h = marathon_history(rng);
+        out.stat("marathon");
         judge(out, &mut real, &h, k % 2 == 1);
     }
     // --- decode1090's inline copy, through the binary built from the tree under test
